@@ -403,11 +403,11 @@ static std::string walk_trace(const Gram& g, const TableDump& d, const std::stri
             if (li + 1 >= ln.size() || ln[li + 1] != pfx(pos) + " PARSE: Entering recovery mode ") return bad("not followed by 'Entering recovery mode'");
             ++li; recovery = true;
         } else if (rest.rfind("Recovering to state ", 0) == 0) {
-            if (!recovery || cell().kind != 0) return bad("pop although the state has an action on error");
+            if (!recovery) return bad("pop outside recovery mode");
             st.pop_back();
             if (st.empty() || st.back() != std::atol(rest.c_str() + 20)) return bad("wrong state after pop");
         } else if (rest == "Could not recover from error ") {
-            if (!recovery || cell().kind != 0 || st.size() != 1) return bad("gave up although states remain");
+            if (!recovery || st.size() != 1) return bad("gave up although states remain on the stack");
             st.pop_back(); done = true;
         } else if (rest == "Leaving recovery mode " || rest == "Entering consume mode ") {
             // checked together with the error shift
@@ -456,7 +456,7 @@ static void explore_strings(FrameBase& f, const Gram& g, const ref::LR1& L, Ctx&
         const std::string& w = cfg.has_input ? cfg.one_input : sp.str[id];
         cur_input = w; cur_phase = "strings";
         std::vector<ref::Tok> toks = tokens_of(w);
-        ref::Run ex = ref::drive(g, rt, toks);
+        ref::Run ex = ref::drive(g, rt, toks, 400);
         if (ex.undefined || ex.horizon) { ctr["ref_no_verdict"]++; continue; }
         if (want_lang && !cfg.has_input && id < cx.sp.count && ex.ok != cx.lang.member(id)) {
             std::fprintf(stderr, "HARNESS ERROR: reference LR driver and CFG membership disagree on '%s' for %s\n", w.c_str(), g.text().c_str());
@@ -639,6 +639,17 @@ static void explore(FrameBase& f, const Gram& g) {
     if (lr1 && diag_clean && (cfg.has("C01") || cfg.has("C02") || cfg.has("C09") || cfg.has("C16") || cfg.has("C06") || cfg.has("C12") || (cfg.has("C08") && err_gram))) strings = true;
     if (!lr1 && !L->any_rr && !L->any_acc && (cfg.has("C05") || cfg.has("C16") || (cfg.has("C08") && err_gram))) strings = true;
     if (lr1 && !diag_clean) ctr["lr1_but_diag_conflict"]++;
+    if (strings && cfg.has("C05") && !lr1 && tc.equal) {
+        // several precedence assignments produce the same table; parsing depends on the table only, and an equal
+        // real table (already matched cell by cell against its resolved reference) has an isomorphic reference,
+        // so each distinct table of a grammar is driven over the strings once
+        static std::string last_spec; static std::set<std::string> seen;
+        std::string sp = spec_of(g) + "#" + f.name;
+        if (sp != last_spec) { last_spec = sp; seen.clear(); }
+        std::string key; key.reserve(d.cells.size() * 6);
+        for (const CellDump& ce : d.cells) { key += char(ce.kind); key += char(ce.arg & 255); key += char(ce.arg >> 8); key += char(ce.sr); key += char(ce.rule & 255); key += char((ce.rule >> 8) & 255); }
+        if (!seen.insert(key).second) { ctr["C05.assignments_with_table_already_driven"]++; strings = false; }
+    }
     if (strings) explore_strings(f, g, *L, cx, d, lr1, tc.equal);
 }
 
